@@ -440,6 +440,11 @@ func (w *World) buildReply(ep *Endpoint, pr *ProbeRec, hp *HopPlan, r *Reply) (b
 	}
 	if r.Var != 0 {
 		b = varyOuter(b, r.Var)
+		if r.Var&(1<<30) != 0 && len(b) < 46 {
+			// the frame crossed an Ethernet segment: datagrams shorter than the minimum payload arrive
+			// zero-padded to 46 bytes, and a packet socket hands the padding over with the datagram
+			b = append(b, make([]byte, 46-len(b))...)
+		}
 	}
 	if r.Garbage != "" {
 		b = applyGarbage(b, r.Garbage)
